@@ -1,8 +1,10 @@
 import TinsModel.Tcp.DataTracker
+import TinsModel.Ack.Model
 /-
   Code-shaped model of `Tins::TCPIP::StreamIdentifier`, `Flow`, `Stream` and `StreamFollower`
   (src/tcp_ip/{stream_identifier,flow,stream,stream_follower}.cpp), statement for statement where
-  property C07 depends on it.  The per-flow reassembly is the C06 model (`Tins.DT`).
+  property C07 depends on it.  The per-flow reassembly is the C06 model (`Tins.DT`), the per-flow ACK tracker is the
+  C19 model (`Tins.Ack`).
 
   Representation choices (all validated by the correspondence harness harness/c07_follower.cpp):
   * an address is the big-endian numeric value of its bytes (IPv4 `< 2^32`, IPv6 `< 2^128`); the 16-byte
@@ -15,8 +17,12 @@ import TinsModel.Tcp.DataTracker
   * the model is generic in the key function (`keyOf : Pkt → κ`) so that the reference connection table of the
     spec is the same machine keyed by (family, unordered endpoint pair); the code is `keyOf = identOf`;
   * callbacks are an event trace; the harness installs every callback, so "callback set" tests are `true`;
-  * ACK tracking is off (`Flow::flags_.ack_tracking = 0`, the default): `acked_intervals()` stays empty and
-    the SACKED_SEGMENTS limit can never fire; `ignore_data_packets` is never set; recovery mode is not enabled.
+  * what the application does inside the new-stream callback is part of the configuration (`Cfg`): switch auto-cleanup
+    off, `Flow::enable_ack_tracking` per flow, `AckTracker::use_sack` (for streams attached mid-way, whose trackers
+    are default-constructed with SACK off), `Stream::ignore_client_data` / `ignore_server_data`;
+  * `DEFAULT_MAX_SACKED_INTERVALS` is a parameter (`Cfg.maxSacked`; the check reads the literal from the source);
+  * a SACK option whose data is not a whole number of 32-bit edges is skipped by the flow (after
+    `fix: a malformed SACK option made Flow::process_packet throw ...`); recovery mode is not enabled.
 -/
 namespace Tins.SF
 open Tins Tins.DT
@@ -35,6 +41,7 @@ structure Pkt where
   mss : Option Nat            -- `search_option(TCP::MSS)`
   sackOk : Bool               -- `has_sack_permitted()`
   ts : Nat
+  sack : Ack.SackOpt := .absent   -- `search_option(TCP::SACK)` and its `to<sack_type>()` conversion
 deriving Repr
 
 /-- `tcp.has_flags(F)` for the single-bit flags -/
@@ -89,19 +96,24 @@ structure Flow where
   mss : Int
   sackPermitted : Bool
   tr : Tracker
+  ackTracking : Bool := false               -- `flags_.ack_tracking`
+  ignoreData : Bool := false                -- `flags_.ignore_data_packets`
+  ackTr : Ack.Tracker := Ack.Tracker.default   -- `ack_tracker_` (a member whether or not tracking is enabled)
 
 /-- `Flow::Flow(dest_address, dest_port, sequence_number)` + `initialize()` -/
 def Flow.init (v6 : Bool) (dst dport seq : Nat) : Flow :=
   { v6 := v6, dst := dst, dport := dport, state := .unknown, mss := -1, sackPermitted := false,
     tr := Tracker.init seq }
 
-/-- `Flow::update_state` (after `fix: RST takes precedence over FIN in Flow::update_state`) -/
+/-- `Flow::update_state` (after `fix: RST takes precedence over FIN in Flow::update_state`);
+    `ack_tracker_ = AckTracker(tcp.ack_seq())` has `use_sack = true` by default argument -/
 def Flow.updateState (f : Flow) (p : Pkt) : Flow :=
   if p.rst then { f with state := .rstSent }
   else if p.fin then { f with state := .finSent }
-  else if f.state = .synSent ∧ p.ackf then { f with state := .established }
+  else if f.state = .synSent ∧ p.ackf then { f with state := .established, ackTr := Ack.Tracker.init p.ack true }
   else if f.state = .unknown ∧ p.syn then
     { f with state := .synSent,
+             ackTr := Ack.Tracker.init p.ack true,
              tr := { f.tr with seq := wrap32 (p.seq + 1) },
              mss := match p.mss with | some m => (m : Int) | none => f.mss,
              sackPermitted := p.sackOk }
@@ -111,10 +123,20 @@ def Flow.updateState (f : Flow) (p : Pkt) : Flow :=
 def Flow.packetBelongs (f : Flow) (p : Pkt) : Bool :=
   f.v6 == p.v6 && p.dst == f.dst && p.dport == f.dport
 
+/-- `if (flags_.ack_tracking) ack_tracker_.process_packet(*tcp);` — a SACK option that cannot be decoded is skipped
+    (the cumulative ACK of the segment has been processed by then) -/
+def Flow.trackAck (f : Flow) (p : Pkt) : Flow :=
+  if f.ackTracking then { f with ackTr := (Ack.processPacket f.ackTr p.ack p.sack).1 } else f
+
+/-- the part of `Flow::process_packet` that every TCP segment goes through: `update_state`, then the ACK tracker -/
+def Flow.pre (f : Flow) (p : Pkt) : Flow := (f.updateState p).trackAck p
+
 /-- `Flow::process_packet`: the new flow, the out-of-order callback arguments (if it fires) and whether the
     data callback fires -/
 def Flow.processPacket (f : Flow) (p : Pkt) : Flow × Option (Nat × Bytes) × Bool :=
-  let f1 := f.updateState p
+  let f1 := f.pre p
+  -- `if (flags_.ignore_data_packets) return;`
+  if f1.ignoreData then (f1, none, false) else
   match p.payload with
   | none => (f1, none, false)
   | some d =>
@@ -125,6 +147,21 @@ def Flow.processPacket (f : Flow) (p : Pkt) : Flow × Option (Nat × Bytes) × B
     ({ f1 with tr := r.1 }, ooo, r.2)
 
 /-! ### Stream -/
+
+structure Cfg where
+  attach : Bool              -- `attach_to_flows_`
+  maxChunks : Nat            -- `max_buffered_chunks_`
+  maxBytes : Nat             -- `max_buffered_bytes_`
+  keepAlive : Nat            -- `stream_keep_alive_` (µs)
+  acl : Bool                 -- auto-cleanup of payloads (harness sets it in the new-stream callback)
+  maxSacked : Nat := 1024    -- `DEFAULT_MAX_SACKED_INTERVALS`
+  -- what the new-stream callback does to the stream it is handed:
+  ackC : Bool := false       -- `client_flow().enable_ack_tracking()`
+  ackS : Bool := false       -- `server_flow().enable_ack_tracking()`
+  useSack : Bool := false    -- `ack_tracker().use_sack()` on both flows
+  ignC : Bool := false       -- `ignore_client_data()`
+  ignS : Bool := false       -- `ignore_server_data()`
+deriving Repr
 
 structure Stream where
   client : Flow
@@ -146,11 +183,15 @@ deriving DecidableEq, Repr
 def Stream.sid (s : Stream) : Sid :=
   ⟨s.server.v6, s.server.dst, s.server.dport, s.client.dst, s.client.dport⟩
 
-/-- `Stream::Stream(packet, ts)` (`extract_client_flow`, `extract_server_flow`) -/
-def Stream.ofPacket (p : Pkt) (acl : Bool) : Stream :=
-  { client := Flow.init p.v6 p.dst p.dport p.dataSeq,
-    server := Flow.init p.v6 p.src p.sport p.ack,
-    createTime := p.ts, lastSeen := p.ts, isPartial := !p.syn, acl := acl }
+/-- what the new-stream callback does to one flow -/
+def Flow.configure (f : Flow) (ack useSack ign : Bool) : Flow :=
+  { f with ackTracking := ack, ignoreData := ign, ackTr := { f.ackTr with useSack := f.ackTr.useSack || useSack } }
+
+/-- `Stream::Stream(packet, ts)` (`extract_client_flow`, `extract_server_flow`) followed by the new-stream callback -/
+def Stream.ofPacket (cfg : Cfg) (p : Pkt) : Stream :=
+  { client := (Flow.init p.v6 p.dst p.dport p.dataSeq).configure cfg.ackC cfg.useSack cfg.ignC,
+    server := (Flow.init p.v6 p.src p.sport p.ack).configure cfg.ackS cfg.useSack cfg.ignS,
+    createTime := p.ts, lastSeen := p.ts, isPartial := !p.syn, acl := cfg.acl }
 
 /-- `Stream::is_finished` -/
 def Stream.isFinished (s : Stream) : Bool :=
@@ -160,6 +201,8 @@ def Stream.isFinished (s : Stream) : Bool :=
 def Stream.chunks (s : Stream) : Nat := s.client.tr.buf.length + s.server.tr.buf.length
 /-- `uint32_t total_buffered_bytes = client + server` (wraps) -/
 def Stream.bytes (s : Stream) : Nat := wrap32 (s.client.tr.total + s.server.tr.total)
+/-- `uint32_t count = client.acked_intervals().iterative_size() + server...` (wraps) -/
+def Stream.sacked (s : Stream) : Nat := wrap32 (s.client.ackTr.ivs.length + s.server.ackTr.ivs.length)
 
 /-- callbacks a stream makes while processing one packet -/
 inductive SEv
@@ -201,19 +244,11 @@ inductive Ev (κ : Type)
   | ooo (k : κ) (sid : Sid) (client : Bool) (seq : Nat) (d : Bytes)
   | data (k : κ) (sid : Sid) (client : Bool) (payload : Bytes)
   | closed (k : κ) (sid : Sid)
-  | term (k : κ) (sid : Sid) (r : Reason) (chunks bytes : Nat)
+  | term (k : κ) (sid : Sid) (r : Reason) (chunks bytes sacked : Nat)
 deriving Repr
 
 def Ev.key {κ} : Ev κ → κ
-  | .new k _ _ => k | .ooo k _ _ _ _ => k | .data k _ _ _ => k | .closed k _ => k | .term k _ _ _ _ => k
-
-structure Cfg where
-  attach : Bool              -- `attach_to_flows_`
-  maxChunks : Nat            -- `max_buffered_chunks_`
-  maxBytes : Nat             -- `max_buffered_bytes_`
-  keepAlive : Nat            -- `stream_keep_alive_` (µs)
-  acl : Bool                 -- auto-cleanup of payloads (harness sets it in the new-stream callback)
-deriving Repr
+  | .new k _ _ => k | .ooo k _ _ _ _ => k | .data k _ _ _ => k | .closed k _ => k | .term k _ _ _ _ _ => k
 
 structure Follower (κ : Type) where
   streams : List (κ × Stream)
@@ -248,7 +283,7 @@ def expired (cfg : Cfg) (now : Nat) (e : κ × Stream) : Bool := decide (e.2.las
 def cleanup (cfg : Cfg) (lt : κ → κ → Bool) (F : Follower κ) (now : Nat) : Follower κ × List (Ev κ) :=
   ({ streams := F.streams.filter (fun e => !expired cfg now e), lastCleanup := now },
    (sortEntries lt (F.streams.filter (expired cfg now))).map
-      (fun e => Ev.term e.1 e.2.sid .timeout e.2.chunks e.2.bytes))
+      (fun e => Ev.term e.1 e.2.sid .timeout e.2.chunks e.2.bytes e.2.sacked))
 
 /-- `if (last_cleanup_ + stream_keep_alive_ <= ts) cleanup_streams(ts);` -/
 def maybeCleanup (cfg : Cfg) (lt : κ → κ → Bool) (F : Follower κ) (ts : Nat) : Follower κ × List (Ev κ) :=
@@ -259,20 +294,27 @@ def liftEv (k : κ) (sid : Sid) : SEv → Ev κ
   | .data c pl => .data k sid c pl
   | .closed => .closed k sid
 
-/-- did the limits check of `process_packet` decide to terminate the stream -/
+/-- did the buffering limits of `process_packet` decide to terminate the stream (reason BUFFERED_DATA) -/
 def overLimit (cfg : Cfg) (s : Stream) : Bool := decide (s.chunks > cfg.maxChunks) || decide (s.bytes > cfg.maxBytes)
+
+/-- `if (!terminate_stream) { count = ...; terminate_stream = count > DEFAULT_MAX_SACKED_INTERVALS; reason = SACKED_SEGMENTS; }` -/
+def overSacked (cfg : Cfg) (s : Stream) : Bool := !overLimit cfg s && decide (s.sacked > cfg.maxSacked)
+
+/-- `terminate_stream` -/
+def terminated (cfg : Cfg) (s : Stream) : Bool := overLimit cfg s || overSacked cfg s
 
 /-- the part of `StreamFollower::process_packet` after the stream has been found or created:
     `stream.process_packet`, limits, erase (the sweep is applied by `step`) -/
 def touch (cfg : Cfg) (F : Follower κ) (k : κ) (s : Stream) (p : Pkt) : Follower κ × List (Ev κ) :=
   let r := s.processPacket p
   let s' := r.1
-  let terminate := overLimit cfg s'
   let F1 : Follower κ :=
-    if s'.isFinished || terminate then { F with streams := remove F.streams k }
+    if s'.isFinished || terminated cfg s' then { F with streams := remove F.streams k }
     else { F with streams := store F.streams k s' }
   (F1, r.2.map (liftEv k s'.sid) ++
-       (if terminate then [Ev.term k s'.sid .bufferedData s'.chunks s'.bytes] else []))
+       (if terminated cfg s' then
+          [Ev.term k s'.sid (if overLimit cfg s' then .bufferedData else .sackedSegments) s'.chunks s'.bytes s'.sacked]
+        else []))
 
 /-- forcing both flows to ESTABLISHED when attaching to a running connection -/
 def Stream.established (s : Stream) : Stream :=
@@ -286,7 +328,7 @@ def stepCore (cfg : Cfg) (keyOf : Pkt → κ) (F : Follower κ) (p : Pkt) : Foll
   | none =>
     let isSyn := p.syn && !p.ackf
     if isSyn || (cfg.attach && p.payload.isSome) then
-      let s0 := Stream.ofPacket p cfg.acl
+      let s0 := Stream.ofPacket cfg p
       let s1 := if isSyn then s0 else s0.established
       let r := touch cfg F k s1 p
       (r.1, Ev.new k s0.sid s0.isPartial :: r.2)
